@@ -496,6 +496,10 @@ type request struct {
 	cpeID     string
 	behaviour string // "", "reqblock", "respblock", "ratelimited"
 
+	// chaos: the question is of class CHAOS (the debug feature: processed
+	// like any other, with debug records added to the answer).
+	chaos bool
+
 	// mapped: the (IPv4) client address arrives in its 16-octet form;
 	// remoteUDP: as a UDP address.
 	mapped, remoteUDP bool
@@ -1022,6 +1026,9 @@ func serve(w *world.World, r *request, id uint16) (out *world.Writer, err error)
 	req.Id = id
 	req.RecursionDesired = true
 	req.Question = []dns.Question{{Name: r.name, Qtype: r.qtype, Qclass: dns.ClassINET}}
+	if r.chaos {
+		req.Question[0].Qclass = dns.ClassCHAOS
+	}
 	if r.cpeID != "" {
 		req.SetEdns0(1232, false)
 		req.IsEdns0().Option = append(req.IsEdns0().Option, &dns.EDNS0_LOCAL{Code: 65074, Data: []byte(r.cpeID)})
@@ -1108,8 +1115,11 @@ func genRequest(t *kernel.Tape, u *universe, servers map[string]*agd.Server, kin
 		r.name, r.behaviour = "ratelimited-"+base+".example.", "ratelimited"
 	case 3:
 		r.name = kernel.Pick(t, []string{"gblocked.names.test.", "x.gsub.names.test.", "gsub.names.test.", "gtype.names.test.", "GBLOCKED.names.test.", "X.gSub.Names.Test.", "gType.names.test."}, "gname")
+		r.chaos = prop == "C10" && t.Chance(1, 4, "chaos-class")
 	case 4:
 		r.name = kernel.Pick(t, []string{"pblocked.names.test.", "y.psub.names.test.", "ptype.names.test.", "notblocked.names.test.", "PBlocked.Names.test.", "y.pSuB.names.TEST.", "Ptype.names.test."}, "pname")
+		// Name rules know no classes.
+		r.chaos = prop == "C10" && t.Chance(1, 4, "chaos-class")
 	default:
 		r.name = base + ".example."
 	}
